@@ -1,21 +1,32 @@
 package api
 
 // C04 rule engine-gates: the gates as composed by engine.bindRoute /
-// appendAuthHandler / signatureVerifier behind the real router and the full
-// default middleware chain (tracing, log, prometheus, max-conns, breaker, timeout,
-// recover, metrics, max-bytes, gunzip). One engine per case, a short history of
-// requests. Oracle: JWT gate first (401), then signature gate (403, strict mode,
-// GET/POST/PUT/DELETE), then the handler (claims in context, original body).
+// appendAuthHandler / signatureVerifier behind the real router. One real server per
+// case, built through the public API (NewServer with generated Options, Use,
+// AddRoutes with generated RouteOptions; only the listening socket is left out:
+// bindRoutes is called the way Start does) and a short history of requests.
+// Generated server dimension: the built-in middleware chain or a custom chain
+// installed with WithChain, srv.Use middlewares, WithNotFoundHandler,
+// WithUnauthorizedCallback / WithUnsignedCallback, Verbose, an unnamed service, a
+// CPU threshold; per route group WithPrefix / WithTimeout / WithPriority /
+// WithMaxBytes / route-level WithMiddlewares next to WithJwt / WithJwtTransition /
+// WithSignature, in a generated order. Oracle: JWT gate first (401), then signature
+// gate (403, strict mode, GET/POST/PUT/DELETE), then the handler (claims in
+// context, original body) - whatever the other options are.
 
 import (
+	"context"
 	"fmt"
 	"io"
 	"net/http"
 	"net/http/httptest"
+	"path"
 	"testing"
 	"time"
 
-	"github.com/gotid/god/api/router"
+	"github.com/gotid/god/api/chain"
+	"github.com/gotid/god/api/handler"
+	"github.com/gotid/god/lib/logx"
 	"github.com/gotid/god/lib/service"
 	"pgregory.net/rapid"
 	"verif.local/kit"
@@ -35,6 +46,7 @@ type c04EngReq struct {
 	Up     bool      `json:"up,omitempty"`    // Upgrade: websocket (the timeout handler of the chain special-cases it)
 	Sp     int       `json:"sp,omitempty"`    // spelling of the route path on the request line (c04Respell), 0 = canonical
 	Abort  bool      `json:"abort,omitempty"` // the body reader fails after At bytes
+	NoRoute bool     `json:"nr,omitempty"`    // the request goes to a path no route matches (unjudged)
 	At     int       `json:"at,omitempty"`
 }
 
@@ -46,7 +58,28 @@ type c04EngGroup struct {
 	Sig    bool   `json:"sig,omitempty"`
 	Strict bool   `json:"strict,omitempty"`
 	TolS   int64  `json:"tol,omitempty"`
-	Keys   string `json:"keys,omitempty"` // configured fingerprints: "ab", "a", "b"
+	Keys   string `json:"keys,omitempty"` // configured fingerprints: "ab", "a", "b"; "none": empty PrivateKeys
+	// route options next to the authentication options
+	Prefix string `json:"pre,omitempty"`  // WithPrefix
+	TmoMs  int64  `json:"tmo,omitempty"`  // WithTimeout
+	Prio   bool   `json:"prio,omitempty"` // WithPriority
+	MaxB   int64  `json:"maxb,omitempty"` // WithMaxBytes (never below the largest generated body)
+	RMw    int    `json:"rmw,omitempty"`  // route-level middlewares (WithMiddlewares)
+	Ord    int    `json:"ord,omitempty"`  // rotation of the RouteOption list
+}
+
+// c04EngSrv is the generated server-level configuration.
+type c04EngSrv struct {
+	Chain   int   `json:"chain,omitempty"`  // 0: built-in chain; 1..4: WithChain(custom chain, see c04EngChain)
+	Use     int   `json:"use,omitempty"`    // number of srv.Use middlewares
+	UseLate bool  `json:"late,omitempty"`   // Use is called after AddRoutes
+	NF      int   `json:"nf,omitempty"`     // 1: WithNotFoundHandler(nil), 2: WithNotFoundHandler(custom)
+	UCb     bool  `json:"ucb,omitempty"`    // WithUnauthorizedCallback (writes nothing)
+	SCb     bool  `json:"scb,omitempty"`    // WithUnsignedCallback (answers as the documented default does)
+	Verbose bool  `json:"vb,omitempty"`     // Config.Verbose
+	NoName  bool  `json:"noname,omitempty"` // Config.Name empty
+	Cpu     int64 `json:"cpu,omitempty"`    // Config.CpuThreshold
+	Rot     int   `json:"rot,omitempty"`    // rotation of the Option list
 }
 
 func (g c04EngGroup) secret() string { return c04Pool[g.Secret] }
@@ -63,6 +96,7 @@ func (g c04EngGroup) hasKey(fp string) bool {
 // one engine carries 1..4 groups; every request addresses one group and is judged
 // with the configuration of THAT group only
 type c04EngCase struct {
+	Srv    c04EngSrv     `json:"srv"`
 	Groups []c04EngGroup `json:"groups"`
 	Reqs   []c04EngReq   `json:"reqs"`
 }
@@ -72,26 +106,91 @@ var c04Pool = []string{"pool-secret-0000", "pool-secret-1111", "pool-secret-2222
 
 func c04EngPathOf(g int) string { return fmt.Sprintf("/g%d/things", g) }
 
+// c04EngRoute: the path under which group gi is reachable (WithPrefix joins the prefix).
+func c04EngRoute(gs []c04EngGroup, gi int) string {
+	if gs[gi].Prefix == "" {
+		return c04EngPathOf(gi)
+	}
+	return path.Join(gs[gi].Prefix, c04EngPathOf(gi))
+}
+
+type c04EngSeen struct {
+	ran      int
+	group    int
+	body     []byte
+	values   map[string]any
+	rmwRan   int // route-level middlewares (they wrap Route.Handler: part of the route's handler)
+	useRan   int
+	chainRan int
+	ucb, scb int
+}
+
+type c04EngWriter struct{ http.ResponseWriter }
+
+type c04EngCtxKey struct{}
+
+// c04EngChain builds custom chain number k: pass-through middlewares only, so that
+// what the statement says about the gates behind them is unchanged.
+func c04EngChain(k int, seen **c04EngSeen) chain.Chain {
+	mark := func(next http.Handler) http.Handler {
+		return http.HandlerFunc(func(w http.ResponseWriter, r *http.Request) {
+			(*seen).chainRan++
+			w.Header().Set("X-C04-Chain", "1")
+			next.ServeHTTP(w, r)
+		})
+	}
+	wrap := func(next http.Handler) http.Handler {
+		return http.HandlerFunc(func(w http.ResponseWriter, r *http.Request) {
+			next.ServeHTTP(c04EngWriter{w}, r)
+		})
+	}
+	ctxv := func(next http.Handler) http.Handler {
+		return http.HandlerFunc(func(w http.ResponseWriter, r *http.Request) {
+			next.ServeHTTP(w, r.WithContext(context.WithValue(r.Context(), c04EngCtxKey{}, "c04")))
+		})
+	}
+	switch k {
+	case 1:
+		return chain.New()
+	case 2:
+		return chain.New(mark)
+	case 3:
+		return chain.New(mark, wrap, ctxv)
+	}
+	// a chain assembled from the repository's own handlers
+	return chain.New(handler.RecoverHandler, handler.MaxBytesHandler(1<<20), handler.GunzipHandler, mark)
+}
+
+func c04Rotate[T any](xs []T, k int) []T {
+	if len(xs) == 0 {
+		return xs
+	}
+	if k < 0 {
+		k = -k
+	}
+	k %= len(xs)
+	return append(append([]T{}, xs[k:]...), xs[:k]...)
+}
+
 func c04EngInterp(t *testing.T, c c04EngCase) (v kit.Verdict) {
 	classes := map[string]bool{}
 	var fail string
 	ranOK, rej401, rej403 := false, false, false
+	var seen *c04EngSeen
 	res := kit.Bubble(t, func() {
-		ng := newEngine(Config{
-			Config:   service.Config{Name: "c04"},
-			Host:     "localhost",
-			Port:     8080,
-			MaxConns: 10000,
-			MaxBytes: 1 << 20,
-			Timeout:  3000,
-		})
-		type seenT struct {
-			ran    int
-			group  int
-			body   []byte
-			values map[string]any
+		cfg := Config{
+			Config:       service.Config{Name: "c04"},
+			Host:         "localhost",
+			Port:         8080,
+			MaxConns:     10000,
+			MaxBytes:     1 << 20,
+			Timeout:      3000,
+			Verbose:      c.Srv.Verbose,
+			CpuThreshold: c.Srv.Cpu,
 		}
-		var seen *seenT
+		if c.Srv.NoName {
+			cfg.Name = ""
+		}
 		var wantKeys []string
 		mk := func(g int) http.HandlerFunc {
 			return func(w http.ResponseWriter, r *http.Request) {
@@ -104,16 +203,92 @@ func c04EngInterp(t *testing.T, c c04EngCase) (v kit.Verdict) {
 				w.WriteHeader(http.StatusOK)
 			}
 		}
-		for gi, g := range c.Groups {
-			fr := featuredRoutes{}
-			for _, m := range c04SigMethods {
-				fr.routes = append(fr.routes, Route{Method: m, Path: c04EngPathOf(gi), Handler: mk(gi)})
+		var opts []Option
+		if c.Srv.Chain > 0 {
+			opts = append(opts, WithChain(c04EngChain(c.Srv.Chain, &seen)))
+			classes["srv:custom-chain"] = true
+		}
+		switch c.Srv.NF {
+		case 1:
+			opts = append(opts, WithNotFoundHandler(nil))
+		case 2:
+			opts = append(opts, WithNotFoundHandler(http.HandlerFunc(func(w http.ResponseWriter, r *http.Request) {
+				w.Header().Set("X-C04-NF", "1")
+				w.WriteHeader(http.StatusNotFound)
+			})))
+			classes["srv:notfound-handler"] = true
+		}
+		if c.Srv.UCb {
+			opts = append(opts, WithUnauthorizedCallback(func(w http.ResponseWriter, r *http.Request, err error) {
+				seen.ucb++
+				w.Header().Set("X-C04-Unauthorized", "1")
+			}))
+			classes["srv:unauthorized-callback"] = true
+		}
+		if c.Srv.SCb {
+			// behaves as the documented default: 403 in strict mode, pass on otherwise
+			opts = append(opts, WithUnsignedCallback(func(w http.ResponseWriter, r *http.Request, next http.Handler, strict bool, code int) {
+				seen.scb++
+				if strict {
+					w.WriteHeader(http.StatusForbidden)
+				} else {
+					next.ServeHTTP(w, r)
+				}
+			}))
+			classes["srv:unsigned-callback"] = true
+		}
+		if c.Srv.Verbose {
+			classes["srv:verbose"] = true
+		}
+		if c.Srv.Cpu > 0 {
+			classes["srv:cpu-threshold"] = true
+		}
+		srv, err := NewServer(cfg, c04Rotate(opts, c.Srv.Rot)...)
+		if err != nil {
+			fail = "NewServer: " + err.Error()
+			return
+		}
+		use := func() {
+			for k := 0; k < c.Srv.Use; k++ {
+				srv.Use(func(next http.HandlerFunc) http.HandlerFunc {
+					return func(w http.ResponseWriter, r *http.Request) {
+						seen.useRan++
+						next(w, r)
+					}
+				})
 			}
+		}
+		if c.Srv.Use > 0 {
+			classes["srv:use"] = true
+		}
+		if !c.Srv.UseLate {
+			use()
+		}
+		bindMustFail := false
+		for gi, g := range c.Groups {
+			var routes []Route
+			for _, m := range c04SigMethods {
+				routes = append(routes, Route{Method: m, Path: c04EngPathOf(gi), Handler: mk(gi)})
+			}
+			if g.RMw > 0 {
+				ms := make([]Middleware, g.RMw)
+				for k := range ms {
+					ms[k] = func(next http.HandlerFunc) http.HandlerFunc {
+						return func(w http.ResponseWriter, r *http.Request) {
+							seen.rmwRan++
+							next(w, r)
+						}
+					}
+				}
+				routes = WithMiddlewares(ms, routes...)
+				classes["grp:route-middlewares"] = true
+			}
+			var ropts []RouteOption
 			if g.Jwt {
 				if g.prev() != "" {
-					WithJwtTransition(g.secret(), g.prev())(&fr)
+					ropts = append(ropts, WithJwtTransition(g.secret(), g.prev()))
 				} else {
-					WithJwt(g.secret())(&fr)
+					ropts = append(ropts, WithJwt(g.secret()))
 				}
 			}
 			if g.Sig {
@@ -123,18 +298,60 @@ func c04EngInterp(t *testing.T, c c04EngCase) (v kit.Verdict) {
 						sc.PrivateKeys = append(sc.PrivateKeys, PrivateKeyConfig{Fingerprint: fp, KeyFile: c04KeyMaterial.files[fp]})
 					}
 				}
-				WithSignature(sc)(&fr)
+				if len(sc.PrivateKeys) == 0 && g.Strict {
+					bindMustFail = true
+				}
+				ropts = append(ropts, WithSignature(sc))
 			}
-			ng.addRoutes(fr)
+			nAuth := len(ropts)
+			if g.Prefix != "" {
+				ropts = append(ropts, WithPrefix(g.Prefix))
+				classes["grp:prefix"] = true
+			}
+			if g.TmoMs > 0 {
+				ropts = append(ropts, WithTimeout(time.Duration(g.TmoMs)*time.Millisecond))
+				classes["grp:timeout"] = true
+			}
+			if g.Prio {
+				ropts = append(ropts, WithPriority())
+				classes["grp:priority"] = true
+			}
+			if g.MaxB > 0 {
+				ropts = append(ropts, WithMaxBytes(g.MaxB))
+				classes["grp:maxbytes"] = true
+			}
+			if nAuth > 0 && len(ropts) > nAuth {
+				classes["grp:auth-next-to-other-route-options"] = true
+			}
+			if c.Srv.Chain > 0 && g.Jwt {
+				classes["srv:custom-chain+jwt"] = true
+			}
+			if c.Srv.Chain > 0 && g.Sig && g.Strict {
+				classes["srv:custom-chain+strict-signature"] = true
+			}
+			if c.Srv.Use > 0 && (g.Jwt || (g.Sig && g.Strict)) {
+				classes["srv:use+auth"] = true
+			}
+			srv.AddRoutes(routes, c04Rotate(ropts, g.Ord)...)
+		}
+		if c.Srv.UseLate {
+			use()
 		}
 		if decs, err := c04Decryptors(); err == nil {
 			c04Scrub(decs) // see c04Scrub: cases must not depend on earlier cases
 		}
-		rt := router.NewRouter()
-		if err := ng.bindRoutes(rt); err != nil {
+		// what Start does before it listens
+		if err := srv.ng.bindRoutes(srv.router); err != nil {
+			if bindMustFail {
+				// a strict signature check without any private key: the statement does not say
+				// what such a server is (the code refuses to start)
+				classes["unspec:strict-signature-without-keys(bind error)"] = true
+				return
+			}
 			fail = "bindRoutes: " + err.Error()
 			return
 		}
+		rt := srv.router
 		for i, rq := range c.Reqs {
 			if rq.Adv > 0 {
 				time.Sleep(time.Duration(rq.Adv) * time.Second)
@@ -142,7 +359,7 @@ func c04EngInterp(t *testing.T, c c04EngCase) (v kit.Verdict) {
 			now := time.Now()
 			gi := rq.G % len(c.Groups)
 			g := c.Groups[gi]
-			route := c04EngPathOf(gi)
+			route := c04EngRoute(c.Groups, gi)
 			tol := time.Duration(g.TolS) * time.Second
 			what := fmt.Sprintf("request %d to group %d %+v", i, gi, g)
 			// token keys: "cur"/"prev" are relative to the addressed group, p0..p2 name
@@ -231,6 +448,8 @@ func c04EngInterp(t *testing.T, c c04EngCase) (v kit.Verdict) {
 				switch {
 				case !g.Strict || !c04Verified(wire.Method):
 					sigExp = c04Unspec
+				case tampered && !c04TamperJudged(rq.Tamper):
+					sigExp = c04Unspec
 				case !rq.Signed || tampered:
 					sigExp = c04Reject
 				case !g.hasKey(sr.Fp):
@@ -245,17 +464,31 @@ func c04EngInterp(t *testing.T, c c04EngCase) (v kit.Verdict) {
 				}
 			}
 
-			seen = &seenT{values: map[string]any{}}
+			seen = &c04EngSeen{values: map[string]any{}}
 			wantKeys = wantKeys[:0]
 			for k := range claims {
 				wantKeys = append(wantKeys, k)
 			}
 			rec := httptest.NewRecorder()
+			if rq.NoRoute {
+				// a path no route matches: not a protected route, the statement is silent (panics only)
+				req.URL.Path = "/nowhere" + req.URL.Path
+				rt.ServeHTTP(rec, req)
+				classes[fmt.Sprintf("unspec:no-such-route(status %d)", rec.Code)] = true
+				continue
+			}
 			rt.ServeHTTP(rec, req)
 			code := rec.Code
-			desc := fmt.Sprintf("%s (%s; jwt reference %s, signature reference %s)", what, wire.Method, jwtExp, sigExp)
+			desc := fmt.Sprintf("%s (%s; jwt reference %s, signature reference %s; server %+v)", what, wire.Method, jwtExp, sigExp, c.Srv)
+			// middlewares put around Route.Handler with WithMiddlewares are part of the route's handler
+			if seen.ran == 0 && seen.rmwRan > 0 {
+				seen.ran = seen.rmwRan
+			}
 
 			switch {
+			case c.Srv.Cpu > 0 && code == http.StatusServiceUnavailable && seen.ran == 0:
+				// load shedding (another property) turned the request away
+				classes["unjudged:shed-503"] = true
 			case rq.Abort && jwtExp != c04Reject:
 				// body read error: status unspecified; the handler must not run when a strict
 				// signature gate was handed fewer bytes than were signed
@@ -378,13 +611,48 @@ func c04EngGenGroup(rt *rapid.T, first *c04EngGroup) c04EngGroup {
 	if g.Sig {
 		g.Strict = rapid.IntRange(0, 9).Draw(rt, "strict") < 9
 		g.TolS = rapid.SampledFrom([]int64{1, 2, 60, 3600}).Draw(rt, "tol")
-		g.Keys = rapid.SampledFrom([]string{"ab", "ab", "a", "b"}).Draw(rt, "keys")
+		g.Keys = rapid.SampledFrom([]string{"ab", "ab", "a", "b", "ab", "ab", "a", "b", "ab", "ab", "a", "b", "ab", "ab", "a", "b", "ab", "ab", "a", "b", "ab", "ab", "a", "none"}).Draw(rt, "keys")
+	}
+	if rapid.IntRange(0, 9).Draw(rt, "ropts?") < 4 {
+		g.Prefix = rapid.SampledFrom([]string{"", "/v1", "/api/v2", "/", "/a/b/"}).Draw(rt, "prefix")
+		g.TmoMs = rapid.SampledFrom([]int64{0, 100, 10000}).Draw(rt, "timeout")
+		g.Prio = rapid.Bool().Draw(rt, "priority")
+		g.MaxB = rapid.SampledFrom([]int64{0, 1 << 17, 4 << 20}).Draw(rt, "maxbytes")
+		g.RMw = rapid.SampledFrom([]int{0, 0, 1, 2}).Draw(rt, "route-mw")
+		g.Ord = rapid.IntRange(0, 5).Draw(rt, "ord")
 	}
 	return g
 }
 
+// c04EngGenSrv draws the server-level options; about half of the servers keep
+// every default.
+func c04EngGenSrv(rt *rapid.T) c04EngSrv {
+	s := c04EngSrv{}
+	if rapid.IntRange(0, 9).Draw(rt, "srv-default") < 4 {
+		return s
+	}
+	// (draws below are arranged so that rapid's minimal value is the default)
+	if rapid.Bool().Draw(rt, "chain?") {
+		s.Chain = rapid.IntRange(1, 4).Draw(rt, "chain")
+	}
+	if rapid.IntRange(0, 2).Draw(rt, "use?") == 2 {
+		s.Use = rapid.IntRange(1, 2).Draw(rt, "use")
+		s.UseLate = rapid.Bool().Draw(rt, "use-late")
+	}
+	s.NF = rapid.SampledFrom([]int{0, 0, 1, 2}).Draw(rt, "nf")
+	s.UCb = rapid.IntRange(0, 3).Draw(rt, "ucb") == 3
+	s.SCb = rapid.IntRange(0, 3).Draw(rt, "scb") == 3
+	s.Verbose = rapid.IntRange(0, 3).Draw(rt, "verbose") == 3
+	s.NoName = rapid.IntRange(0, 5).Draw(rt, "noname") == 5
+	if rapid.IntRange(0, 5).Draw(rt, "cpu?") == 5 {
+		s.Cpu = rapid.SampledFrom([]int64{900, 1000, 500}).Draw(rt, "cpu")
+	}
+	s.Rot = rapid.IntRange(0, 4).Draw(rt, "rot")
+	return s
+}
+
 func c04EngGen(rt *rapid.T) c04EngCase {
-	c := c04EngCase{}
+	c := c04EngCase{Srv: c04EngGenSrv(rt)}
 	ng := rapid.IntRange(1, 4).Draw(rt, "ngroups")
 	for i := 0; i < ng; i++ {
 		var first *c04EngGroup
@@ -399,6 +667,7 @@ func c04EngGen(rt *rapid.T) c04EngCase {
 		rq.G = rapid.IntRange(0, ng-1).Draw(rt, "group")
 		rq.Sp = rapid.SampledFrom([]int{0, 0, 0, 1, 2, 3, 4, 5}).Draw(rt, "spelling")
 		rq.Up = rapid.IntRange(0, 7).Draw(rt, "upgrade") == 3
+		rq.NoRoute = rapid.IntRange(0, 19).Draw(rt, "noroute") == 19
 		g := c.Groups[rq.G]
 		rq.Req = c04GenSigReq(rt)
 		if g.Jwt || rapid.IntRange(0, 3).Draw(rt, "tok?") == 0 {
@@ -435,6 +704,10 @@ func c04EngGen(rt *rapid.T) c04EngCase {
 }
 
 func TestVerif_C04_engine(t *testing.T) {
+	// NewServer runs service.Config.Setup: let its process-wide once-only parts (log
+	// set-up, trace agent, dev server) happen outside the bubbles
+	_ = (service.Config{Name: "c04"}).Setup()
+	logx.Disable()
 	kit.Run(t, "C04", "engine-gates", kit.Opts{Quick: 600, Thorough: 16000}, c04EngGen,
 		func(c c04EngCase) kit.Verdict { return c04EngInterp(t, c) })
 }
